@@ -28,7 +28,7 @@ var allowPrefix = []string{
 	"math/bits.", "encoding/binary.", "(encoding/binary.",
 	"go.uber.org/multierr.", "(*go.uber.org/multierr.", "(go.uber.org/multierr.",
 	"hash/fnv.New64",
-	"bytes.NewReader", "(*bytes.Reader).", "io.NopCloser", "(io.nopCloser", "(io.nopCloserWriterTo",
+	"bytes.NewReader", "(*bytes.Reader).", "(*strings.Reader).", "io.ReadAll", "io.NopCloser", "(io.nopCloser", "(io.nopCloserWriterTo",
 	"bufio.NewScanner", "(*bufio.Scanner).", "bufio.ScanLines", "bufio.dropCR", "bufio.isSpace",
 	"bytes.IndexByte", "bytes.Equal",
 	"strconv.Itoa", "strconv.FormatInt", "strconv.formatBits", "strconv.small", "strconv.Atoi", "strconv.ParseInt", "strconv.ParseUint", "strconv.underscoreOK", "strconv.lower", "strconv.syntaxError", "strconv.rangeError", "strconv.cloneString", "strconv.bitSizeError", "strconv.baseError", "(*strconv.NumError)",
@@ -617,7 +617,9 @@ func init() {
 		return mkStr(out)
 	}
 	externals["strings.NewReader"] = func(fr *frame, a []value) value {
-		panic(unsupportedAbort{"strings.NewReader"})
+		// *strings.Reader{s string, i int64, prevRune int}; its methods are interpreted from source
+		var cell value = structure{a[0], int64(0), int(-1)}
+		return &cell
 	}
 }
 
